@@ -985,8 +985,8 @@ def build_evidence(prop, pinfo, tier, seed, results, canaries, mutant_results, b
         "undecided_reasons": reasons,
         "known_findings_reproduced": [k.get("obligation") for k, _, _ in known_hits],
     }
-    if nob == 0:
-        # bounded-only property: exploration style keys
+    if nob == 0 or (bounded and pinfo.get("level") in ("exploration", "fault_enumeration")):
+        # bounded-only property, or a property whose claimed level is the bounded exploration: exploration style keys
         ev_total = sum(b.get("evaluations", 0) for b in bounded)
         cov.update({"evaluations": ev_total, "distinct_nontrivial": sum(b.get("distinct_nontrivial", 0) for b in bounded),
                     "rule": "; ".join(b.get("rule", "") for b in bounded)})
